@@ -145,6 +145,9 @@ def _select(rng, wview, bview):
     return mode, spec, excl
 
 
+BELOW_REMOVED = set()  # unselected ids whose basis directory this commit had to remove (filled by _oracle)
+
+
 def _oracle(ctx, repo, new_rev, wview, bview, spec, excl, detail):
     """The by-id oracle of the statement.  Returns (S, P)."""
     def selected(fid):
@@ -158,6 +161,7 @@ def _oracle(ctx, repo, new_rev, wview, bview, spec, excl, detail):
     ids = set(wview) | set(bview)
     S = {f for f in ids if selected(f)}
     P = set()
+    BELOW_REMOVED.clear()
     for f in S:
         if f in wview:
             p = wview[f][0]
@@ -213,6 +217,20 @@ def _oracle(ctx, repo, new_rev, wview, bview, spec, excl, detail):
                 ctx.fail("parent-dir-neither-working-nor-basis", "id %r: committed %r, working %r, basis %r" % (f, g, w5, b5), detail)
         else:
             ctx.count("oracle_unselected")
+            if g is None and b is not None:
+                # its basis parent directory was removed by this very commit (judged above under S or P: e.g. the old
+                # directory had to give way to a new directory at the same path that a selected entry needs as parent):
+                # the entry cannot stay where the basis has it, the statement is silent (thorough seed 0 case 1)
+                q, under_removed = b[0], False
+                while q != b"ROOT" and q in bview:
+                    if q in (S | P) and q not in nview:
+                        under_removed = True
+                        break
+                    q = bview[q][0]
+                if under_removed:
+                    ctx.count("oracle_unselected_below_removed_directory")
+                    BELOW_REMOVED.add(f)
+                    continue
             if g != b5:
                 ctx.fail("unselected-id-changed", "id %r: committed %r but basis has %r (working %r)" % (f, g, b5, w5), detail)
     return S, P, nview
@@ -291,7 +309,7 @@ def clean_commit(ctx, root, spec, excl, detail):
         if f in S:
             ctx.fail("selected-id-still-changed-after-commit", "id %r still reported: %r" % (f, ch), detail)
     for f, ch in pre.items():
-        if f not in S and f not in P:
+        if f not in S and f not in P and f not in BELOW_REMOVED:
             ctx.count("oracle_pending_kept")
             if post.get(f) != ch:
                 ctx.fail("unselected-pending-change-lost", "id %r: before %r after %r" % (f, ch, post.get(f)), detail)
